@@ -246,6 +246,9 @@ class Scenario:
     seed: int = 0
     mode: str = "normal"              # "normal" | "half_close": client sends its items, then transport.send_eof()
                                       #   WITHOUT close_notify and waits; the server reads to the end and THEN replies
+                                      # | "duplex_reply": the client's reader task is already parked in receive() when
+                                      #   its writer task sends and then idles; the server replies only after it has
+                                      #   received the complete request
     cancel_probe: int = 0             # k > 0: every k-th receive() is called inside an already cancelled scope
 
     def to_json(self):
@@ -396,6 +399,9 @@ async def run_scenario(sc: Scenario, certs: Certs, idle_limit: int = 400):
                         res.send_exc = e
                         return
                     res.sent_items += 1
+                    if stream._write_bio.pending and not conn.killed and res.recv_exc is None:
+                        res.mon.append(f"{role}: send() of {len(it)} bytes returned normally with "
+                                       f"{stream._write_bio.pending} bytes of ciphertext still unsent in the outgoing BIO")
 
             async def receiver():
                 i = 0
@@ -420,6 +426,9 @@ async def run_scenario(sc: Scenario, certs: Certs, idle_limit: int = 400):
                         res.recv_exc = e
                         return
                     res.recv_calls += 1
+                    if stream._write_bio.pending and not conn.killed and res.send_exc is None:
+                        res.mon.append(f"{role}: receive() returned normally with {stream._write_bio.pending} bytes of "
+                                       f"ciphertext still unsent in the outgoing BIO")
                     if not (1 <= len(data) <= n):
                         res.mon.append(f"{role}: receive({n}) returned {len(data)} bytes")
                     res.got += data
@@ -441,9 +450,22 @@ async def run_scenario(sc: Scenario, certs: Certs, idle_limit: int = 400):
                     await sender()                 # the answer, AFTER the end of the request was seen
                 return
 
-            async with anyio.create_task_group() as tg:
-                tg.start_soon(sender)
-                tg.start_soon(receiver)
+            if sc.mode == "duplex_reply" and role == "server":
+                await receiver()                   # the complete request first ...
+                await sender()                     # ... then the reply
+            elif sc.mode == "duplex_reply":
+                async def late_sender():
+                    for _ in range(20):            # the reader task is parked in receive() by now
+                        await anyio.lowlevel.checkpoint()
+                    await sender()                 # ... and then this task idles: nothing else flushes
+
+                async with anyio.create_task_group() as tg:
+                    tg.start_soon(receiver)
+                    tg.start_soon(late_sender)
+            else:
+                async with anyio.create_task_group() as tg:
+                    tg.start_soon(sender)
+                    tg.start_soon(receiver)
 
             if res.recv_exc is None and res.send_exc is None:
                 if role != sc.initiator:
